@@ -128,6 +128,21 @@ ADDENDA = {
  "C19": "First use: one fresh interpreter per observation - the first two calls of a version forced through 'A runs p steps, B runs completely, A finishes' and mirrored, and two threads first-using a version at the same time with delays 0-300 ms.",
 }
 
+ADDENDA2 = {
+ "C01": "Every job runs in a process of its own, after something of the other escaping family has been encoded there.",
+ "C03": "Quick tier: every structure of every version is at least instantiated once with all its members.",
+ "C04": "Segments validated on their own: a value at every leaf the version defines (no error), content in a segment the version defines without fields (reported).",
+ "C05": "Constructor scenarios carry the datatype given and the one the tables give: STRICT accepting another one is a violation (datatype_overridden_under_strict).",
+ "C06": "Datatype objects are handed over three ways: leaf.value = obj, parent.<name> = obj, the latter inside a message that has the delimiters as its own.",
+ "C08": "Quick tier: every structure of every version is at least instantiated once with all its members.",
+ "C09": "Operation SetAtObj (children[i] = element).",
+ "C10": "Operation SetAtObj (children[i] = element): refused unless the element carries the name of the child at that position.",
+ "C12": "Operation SetAtObj (children[i] = element).",
+ "C14": "Components created by a text assigned through their field; complex components of another version are written first; one process per job.",
+ "C17": "The library's own constant DEFAULT_ENCODING_CHARS handed over as the explicit argument; to_er7() without arguments of every level inside a message with its own delimiters.",
+ "C18": "Complex components of messages parsed with the profile at both levels: the datatypes of their subcomponents and validate() of the component alone follow the profile (ProfileTrace k=below).",
+}
+
 def main():
     props = [json.loads(l) for l in open(os.path.join(HERE, "properties.jsonl"))]
     checks = []
@@ -143,7 +158,7 @@ def main():
                 "evidence_file": "/verif/evidence/%s.json" % pid,
                 "replay_cmd_template": "./check %s --replay {path}" % pid,
                 "engine": "tlc",
-                "level_claimed": {"category": "model_checking", "text": (c["text"] + " " + ADDENDA.get(pid, "")).strip(), "design_ref": c["ref"]},
+                "level_claimed": {"category": "model_checking", "text": (c["text"] + " " + ADDENDA.get(pid, "") + " " + ADDENDA2.get(pid, "")).strip(), "design_ref": c["ref"]},
                 "level_note": c["note"],
                 "technique": c["technique"],
             })
